@@ -45,6 +45,7 @@ type CircuitBreaker struct {
 	failureCount    uint32
 	successCount    uint32
 	requestCount    uint32
+	generation      uint64 // advanced on every state change; results of requests admitted earlier are stale
 	lastFailureTime time.Time
 	lastSuccessTime time.Time
 	nextAttempt     time.Time
@@ -104,20 +105,20 @@ func NewCircuitBreaker(settings Settings) *CircuitBreaker {
 
 // Execute executes the given function with circuit breaker protection
 func (cb *CircuitBreaker) Execute(fn func() error) error {
-	err := cb.beforeRequest()
+	generation, err := cb.beforeRequest()
 	if err != nil {
 		return err
 	}
 
 	defer func() {
 		if r := recover(); r != nil {
-			cb.afterRequest(false)
+			cb.afterRequest(generation, false)
 			panic(r)
 		}
 	}()
 
 	err = fn()
-	cb.afterRequest(err == nil)
+	cb.afterRequest(generation, err == nil)
 	return err
 }
 
@@ -126,13 +127,15 @@ func (cb *CircuitBreaker) Call(fn func() error) error {
 	return cb.Execute(fn)
 }
 
-// beforeRequest checks if the request can proceed with optimized locking
-func (cb *CircuitBreaker) beforeRequest() error {
+// beforeRequest checks if the request can proceed with optimized locking. It
+// returns the generation the request was admitted in.
+func (cb *CircuitBreaker) beforeRequest() (uint64, error) {
 	now := time.Now()
 
 	// Fast path: read-only check for most common case (StateClosed)
 	cb.mutex.RLock()
 	state := cb.state
+	generation := cb.generation
 
 	// Common case: circuit is closed and healthy
 	if state == StateClosed {
@@ -149,7 +152,7 @@ func (cb *CircuitBreaker) beforeRequest() error {
 			}
 			cb.mutex.Unlock()
 		}
-		return nil
+		return generation, nil
 	}
 
 	cb.mutex.RUnlock()
@@ -162,7 +165,7 @@ func (cb *CircuitBreaker) beforeRequest() error {
 
 	if cb.state == StateOpen {
 		if !cb.nextAttempt.Before(now) {
-			return ErrCircuitBreakerOpen
+			return cb.generation, ErrCircuitBreakerOpen
 		}
 		cb.setState(StateHalfOpen)
 		cb.requestCount = 0
@@ -171,19 +174,27 @@ func (cb *CircuitBreaker) beforeRequest() error {
 
 	if cb.state == StateHalfOpen {
 		if cb.requestCount >= cb.maxRequests {
-			return ErrTooManyRequests
+			return cb.generation, ErrTooManyRequests
 		}
 		cb.requestCount++
 	}
 
 	// Closed in the meantime (a trial request succeeded): admit
-	return nil
+	return cb.generation, nil
 }
 
-// afterRequest updates the circuit breaker state after a request
-func (cb *CircuitBreaker) afterRequest(success bool) {
+// afterRequest updates the circuit breaker state after a request that was
+// admitted in the given generation
+func (cb *CircuitBreaker) afterRequest(generation uint64, success bool) {
 	cb.mutex.Lock()
 	defer cb.mutex.Unlock()
+
+	if generation != cb.generation {
+		// The state changed while the request was in flight. Its result says
+		// nothing about the current state: in particular a request admitted
+		// before the circuit opened is not a half-open trial request.
+		return
+	}
 
 	now := time.Now()
 
@@ -224,6 +235,7 @@ func (cb *CircuitBreaker) setState(state State) {
 
 	prev := cb.state
 	cb.state = state
+	cb.generation++
 
 	if cb.onStateChange != nil {
 		// setState runs with cb.mutex held. Notify asynchronously so that a
